@@ -40,7 +40,9 @@ pub mod vfs {
     use crate::acme_common::error::IoError;
     verus! {
     pub struct OpenOptions { pub mode: u32, pub write: bool, pub create: bool, pub truncate: bool }
-    pub struct File { pub path: Ghost<Seq<char>>, pub pos: Ghost<int> }
+    // `pending`: bytes accepted by write_all that have not reached the file yet (tokio::fs::File hands its writes to a
+    // background thread: they are in the file, and their failure is reported, only once the file has been flushed)
+    pub struct File { pub path: Ghost<Seq<char>>, pub pos: Ghost<int>, pub pending: Ghost<Option<Seq<u8>>> }
     // bytes of a file after writing `data` at offset 0 over `old`
     pub open spec fn overwrite(old: Seq<u8>, data: Seq<u8>) -> Seq<u8> {
         if data.len() >= old.len() { data } else { data + old.skip(data.len() as int) }
@@ -69,7 +71,7 @@ pub mod vfs {
                 match r {
                     Ok(f) => {
                         let existed = old(w).fs.files.contains_key(p@);
-                        &&& f.path@ == p@ && f.pos@ == 0
+                        &&& f.path@ == p@ && f.pos@ == 0 && f.pending@ is None
                         &&& self.write
                         &&& (existed || self.create)
                         &&& final(w).fs.files == old(w).fs.files.insert(p@,
@@ -91,7 +93,7 @@ pub mod vfs {
                 match r {
                     Ok(f) => {
                         let existed = old(w).fs.files.contains_key(p@);
-                        &&& f.path@ == p@ && f.pos@ == 0
+                        &&& f.path@ == p@ && f.pos@ == 0 && f.pending@ is None
                         &&& final(w).fs.files == old(w).fs.files.insert(p@, Seq::<u8>::empty())
                         &&& final(w).fs.modes == (if existed { old(w).fs.modes } else { old(w).fs.modes.insert(p@, 0o666u32) })
                         &&& final(w).fs.events == old(w).fs.events.push(
@@ -102,21 +104,16 @@ pub mod vfs {
         { unimplemented!() }
         #[verifier::external_body]
         pub fn open(p: &PathBuf, Tracked(w): Tracked<&mut World>) -> (r: Result<File, IoError>)
-            ensures *final(w) == *old(w), r matches Ok(f) ==> f.path@ == p@ && f.pos@ == 0 && old(w).fs.files.contains_key(p@)
+            ensures *final(w) == *old(w), r matches Ok(f) ==> f.path@ == p@ && f.pos@ == 0 && f.pending@ is None && old(w).fs.files.contains_key(p@)
         { unimplemented!() }
-        // AsyncWriteExt::write_all on a freshly opened file (offset 0)
+        // AsyncWriteExt::write_all on a freshly opened file (offset 0): the bytes are accepted, nothing has reached the file yet
         #[verifier::external_body]
         pub fn write_all(&mut self, data: &[u8], Tracked(w): Tracked<&mut World>) -> (r: Result<(), IoError>)
-            requires old(self).pos@ == 0, old(w).fs.files.contains_key(old(self).path@)
+            requires old(self).pos@ == 0, old(self).pending@ is None, old(w).fs.files.contains_key(old(self).path@)
             ensures
-                final(self).path == old(self).path,
-                final(w).clock == old(w).clock, final(w).admissions == old(w).admissions, final(w).net == old(w).net,
-                final(w).fs.modes == old(w).fs.modes,
-                final(w).fs.events == old(w).fs.events.push(FsEvent::Write { path: old(self).path@ }),
-                r is Ok ==> final(w).fs.files == old(w).fs.files.insert(old(self).path@, overwrite(old(w).fs.files[old(self).path@], data@)),
-                r is Ok ==> final(self).pos@ == data@.len(),
-                r is Err ==> final(w).fs.files.dom() == old(w).fs.files.dom()
-                    && (forall|q: Seq<char>| q != old(self).path@ ==> final(w).fs.files[q] == old(w).fs.files[q]),
+                final(self).path == old(self).path, *final(w) == *old(w),
+                r is Ok ==> final(self).pos@ == data@.len() && final(self).pending@ == Some(data@),
+                r is Err ==> final(self).pending@ is None,
         { unimplemented!() }
         #[verifier::external_body]
         pub fn read_to_end(&mut self, buf: &mut Vec<u8>, Tracked(w): Tracked<&mut World>) -> (r: Result<usize, IoError>)
@@ -125,10 +122,21 @@ pub mod vfs {
         { unimplemented!() }
     }
     impl File {
-        // flush / sync_all: what has been written is in the file already in this model
+        // AsyncWriteExt::flush: waits for the pending write; on success the bytes are in the file, a failure is reported here
         #[verifier::external_body]
         pub fn flush(&mut self, Tracked(w): Tracked<&mut World>) -> (r: Result<(), IoError>)
-            ensures *final(w) == *old(w), *final(self) == *old(self) { unimplemented!() }
+            ensures
+                final(self).path == old(self).path, final(self).pos == old(self).pos, final(self).pending@ is None,
+                final(w).clock == old(w).clock, final(w).admissions == old(w).admissions, final(w).net == old(w).net,
+                final(w).fs.modes == old(w).fs.modes,
+                old(self).pending@ is None ==> final(w).fs == old(w).fs,
+                old(self).pending@ matches Some(d) ==> {
+                    &&& final(w).fs.events == old(w).fs.events.push(FsEvent::Write { path: old(self).path@ })
+                    &&& (r is Ok ==> final(w).fs.files == old(w).fs.files.insert(old(self).path@, overwrite(old(w).fs.files[old(self).path@], d)))
+                    &&& (r is Err ==> final(w).fs.files.dom() == old(w).fs.files.dom()
+                            && (forall|q: Seq<char>| q != old(self).path@ ==> final(w).fs.files[q] == old(w).fs.files[q]))
+                },
+        { unimplemented!() }
         #[verifier::external_body]
         pub fn sync_all(&self, Tracked(w): Tracked<&mut World>) -> (r: Result<(), IoError>)
             ensures *final(w) == *old(w) { unimplemented!() }
